@@ -59,7 +59,16 @@ fn case(t: Tier) -> BoxedStrategy<Case> {
                 ccfg.w_upd_qty = 24;
             }
             let profile = prefix.profile;
-            (Just(prefix), 0u8..4, proptest::collection::vec(op_strategy(ccfg, profile), 1..=8))
+            let zeros = prefix.zeros;
+            (Just(prefix), 0u8..4, proptest::collection::vec(op_strategy(ccfg, profile), 1..=8), any::<u8>()).prop_map(move |(prefix, path, mut continuation, tail)| {
+                // half of the prefixes with orders that show nothing: bring them back to life and
+                // trade through them at the end (their queue position is visible in no listing)
+                if zeros && tail & 1 == 1 {
+                    continuation.push(Op::Revive { qty: 1 + (tail as u64 >> 5), rev: tail & 2 != 0 });
+                    continuation.push(Op::Match { size: if tail & 4 != 0 { MatchSize::AllPlus1 } else { MatchSize::AfterFills(1 + (tail >> 3) % 4) } });
+                }
+                (prefix, path, continuation)
+            })
         })
         .prop_map(|(prefix, path, continuation)| Case { prefix, path, continuation })
         .boxed()
@@ -289,7 +298,7 @@ pub fn run(cfg: &RunCfg) -> Report {
     let known = crate::known::load(&cfg.root);
     let excuse = known.listed("C11", "KF-C11-1");
     let tier = cfg.tier;
-    let n = cfg.cases(60_000, 2_000_000);
+    let n = cfg.cases(160_000, 2_400_000);
     rep.absorb("restore_differential", explore(cfg, "C11", n, move || case(tier), move |c: &Case, st| eval(c, st, excuse).map(|_| ())));
     for f in known.for_property("C11") {
         let hit = crate::known::read_witness(&cfg.root, f)
